@@ -444,6 +444,27 @@ func (e *c23Env) invalidator(idx int, stop *atomic.Bool, wg *sync.WaitGroup) {
 			d := e.slotEnd(w.step, s) - s
 			times = append(times, s+rnd.Int64N(d))
 		}
+		// production lists are runs of consecutive seconds, which often straddle the chunk grid
+		// (minute / hour / day, or chunkSize*step): add the boundary that follows one of the
+		// seconds, and sometimes its neighbours
+		if rnd.IntN(2) == 0 {
+			t := times[rnd.IntN(len(times))]
+			grid := []int64{60, 3600, 86400}[rnd.IntN(3)]
+			if e.cfg.chunkSize > 0 && rnd.IntN(2) == 0 {
+				grid = int64(e.cfg.chunkSize) * e.wins[rnd.IntN(len(e.wins))].step
+			}
+			b := c23Floor(t, grid, 0) + grid
+			if grid == 86400 {
+				b = c23Floor(t, grid, e.cfg.utcOffset) + grid
+			}
+			times = append(times, b)
+			switch rnd.IntN(3) {
+			case 0:
+				times = append(times, b-1)
+			case 1:
+				times = append(times, b-1, b+1)
+			}
+		}
 		sort.Slice(times, func(i, j int) bool { return times[i] < times[j] })
 		times = c23Dedup(times)
 		// as the production loop does: the same list goes to every LOD level, one after another
@@ -1406,7 +1427,9 @@ func c23RunChild(r *verifkit.Run, tmp, tag string, cfgs []c23Cfg, lo, hi int, no
 		r.Inconclusive(m)
 	}
 	raceFiles, _ := filepath.Glob(racePriv + ".*")
-	if runErr == nil && res.Completed && st.Done {
+	if res.Completed && st.Done {
+		// (a child that saw a data race exits with status 1 after finishing all its rounds: testing
+		// fails the test; its reports are handed to the driver like any other)
 		for _, f := range raceFiles {
 			if b, err := os.ReadFile(f); err == nil {
 				_ = os.WriteFile(raceTo+"."+tag+filepath.Ext(f), b, 0o644)
